@@ -358,14 +358,19 @@ TryA == {<<I("yn", "", 8, 0)>>, <<I("yn", "", 8, 0), I("yn", "", 4, 0)>>, <<I("y
          <<I("next", "r2", 0, 0), I("yn", "", 8, 0)>>, <<I("yn", "", 8, 0), I("ret", "", 0, 0)>>, <<I("yar", "", 4, 0)>>}
 TryB == {I("yv", "", 1, 0), I("stop", "r1", 0, 1), I("stop", "r2", 0, 1), I("reset", "r1", 0, 0), I("pause", "r2", 0, 0),
          I("raise", "", 0, 0), I("next", "r2", 0, 1), I("ret", "", 0, 0)}
-TryScripts == {<<I("try", "", 0, 0)>> \o a \o <<I(h[1], "", 0, 0)>> \o b \o <<I(h[2], "", 0, 0)>> \o tl :
-                 a \in TryA, h \in {<<"except", "endx">>, <<"finally", "endf">>}, b \in ScriptsOver(TryB, MaxLen),
-                 tl \in {<<>>, <<I("yn", "", 2, 0)>>}}
+TryAq == {<<I("yn", "", 8, 0)>>, <<I("yn", "", 8, 0), I("raise", "", 0, 0)>>, <<I("next", "r2", 0, 0), I("yn", "", 8, 0)>>,
+          <<I("yn", "", 8, 0), I("ret", "", 0, 0)>>}
+TryScriptsOver(A, tails) ==
+    {<<I("try", "", 0, 0)>> \o a \o <<I(h[1], "", 0, 0)>> \o b \o <<I(h[2], "", 0, 0)>> \o tl :
+       a \in A, h \in {<<"except", "endx">>, <<"finally", "endf">>}, b \in ScriptsOver(TryB, MaxLen), tl \in tails}
 TryPartner == {<<I("yn", "", 4, 0), I("raise", "", 0, 0)>>,
                <<I("try", "", 0, 0), I("yn", "", 4, 0), I("finally", "", 0, 0), I("stop", "r1", 0, 1), I("stop", "r2", 0, 1),
                  I("endf", "", 0, 0)>>,
                <<I("try", "", 0, 0), I("try", "", 0, 0), I("yn", "", 4, 0), I("except", "", 0, 0), I("endx", "", 0, 0),
                  I("yn", "", 2, 0), I("finally", "", 0, 0), I("yv", "", 9, 0), I("endf", "", 0, 0)>>}
+TryPartnerQ == {<<I("yn", "", 4, 0), I("raise", "", 0, 0)>>,
+                <<I("try", "", 0, 0), I("yn", "", 4, 0), I("finally", "", 0, 0), I("stop", "r1", 0, 1), I("stop", "r2", 0, 1),
+                  I("endf", "", 0, 0)>>}
 Progs ==
     CASE ProgSel = 1 -> {[r \in {"r1"} |-> P(pl, 1, s)] : pl \in {0}, s \in ScriptsOver(VocabFlow, MaxLen)}
       [] ProgSel = 2 -> {[r \in {"r1", "r2"} |-> IF r = "r1" THEN P(0, 1, s) ELSE b] :
@@ -380,7 +385,9 @@ Progs ==
                           s2 \in ScriptsOver({I("yn", "", 4, 0), I("next", "r3", 0, 0), I("next", "r3", 0, 1), I("next", "r1", 0, 1)}, MaxLen),
                           s3 \in ScriptsOver({I("yn", "", 2, 0), I("raise", "", 0, 0), I("stop", "r1", 0, 1), I("wait", "c1", 0, 0)}, MaxLen)}
       [] ProgSel = 7 -> {[r \in {"r1", "r2"} |-> IF r = "r1" THEN P(0, 1, s1) ELSE P(0, 0, s2)] :
-                          s1 \in TryScripts, s2 \in TryPartner}
+                          s1 \in TryScriptsOver(TryAq, {<<>>}), s2 \in TryPartnerQ}
+      [] ProgSel = 9 -> {[r \in {"r1", "r2"} |-> IF r = "r1" THEN P(0, 1, s1) ELSE P(0, 0, s2)] :
+                          s1 \in TryScriptsOver(TryA, {<<>>, <<I("yn", "", 2, 0)>>}), s2 \in TryPartner}
       [] ProgSel = 8 -> {[r \in {"r1", "r2"} |->
                             IF r = "r1" THEN P(0, 1, <<I("try", "", 0, 0), I("yn", "", 8, 0), I("raise", "", 0, 0), I("except", "", 0, 0), I("yv", "", 1, 0),
                                                        I("endx", "", 0, 0), I("yn", "", 2, 0)>>)
